@@ -245,12 +245,14 @@ class Report:
     """Collects what one check run did and turns it into stdout lines, replay files,
     the evidence file and the exit status."""
 
-    def __init__(self, prop, tier, level="proof"):
+    def __init__(self, prop, tier, level="proof", replay_of=None):
         self.prop, self.tier, self.level = prop, tier, level
         self.seed = seed_from_env()
         self.t0 = time.time()
-        for f in glob.glob(os.path.join(REPLAY, prop + "_*.json")):
-            os.remove(f)
+        self.replay_of = replay_of          # replay mode: the recorded violation (dict); nothing under evidence/ is rewritten
+        if replay_of is None:
+            for f in glob.glob(os.path.join(REPLAY, prop + "_*.json")):
+                os.remove(f)
         self.violations = []      # dict(key, what, replay_obj, found_input:bool)
         self.known_hit = []
         self.obligations = []     # (name, ok, axioms)
@@ -288,6 +290,21 @@ class Report:
 
     def obligation(self, name, ok, axioms=None):
         self.obligations.append((name, bool(ok), axioms or []))
+
+    def finish_replay(self, path):
+        """replay mode: the check was re-run under the recorded seed and tier; report whether the recorded violation shows again"""
+        hit = [v for v in self.violations if v["key"] == self.replay_of.get("key")]
+        known = [k for k, _ in self.known_hit if k == self.replay_of.get("key")]
+        if hit:
+            tail = "" if hit[0]["found_input"] else " no-failing-input-found"
+            print("VIOLATION property=%s replay=%s%s" % (self.prop, path, tail))
+            print("  # reproduced: " + hit[0]["what"][:300])
+        elif known:
+            print("KNOWN-FINDING: property=%s %s" % (self.prop, self.replay_of.get("what", "")[:300]))
+        else:
+            print("REPLAY property=%s key=%r: not reproduced on the current tree (seed %s, tier %s)" % (self.prop, self.replay_of.get("key"), self.seed, self.tier))
+        sys.stdout.flush()
+        return 1 if hit else 0
 
     def finish(self):
         os.makedirs(REPLAY, exist_ok=True)
